@@ -417,3 +417,38 @@ class Sim:
             pass
         self.finals.append(self.state)
         return self.state
+
+
+def layout_hook(rebuild, dirty, ins, outs):
+    """Sim hook for classes with a lazily rebuilt cache: the rebuild routine is not entered; it marks every cached
+    member as 'rebuilt from <the provenance its inputs have at that moment>' and clears the dirty flag."""
+    def hook(g, e, S):
+        if g["fid"] == rebuild["fid"]:
+            snap = frozenset((i, S.state.get(i)) for i in sorted(ins))
+            for o in outs:
+                S.state[o] = ("rebuilt", snap)
+            S.state[dirty] = ("bool", False)
+            return ("top", "void")
+        return NotImplemented
+    return hook
+
+
+def cache_consistent(state, dirty, ins, outs, want_in):
+    """None when the cached members agree with the final inputs, else a description.  want_in: member -> provenance the
+    input must end with."""
+    for i in sorted(ins):
+        if i in want_in and state.get(i) != want_in[i]:
+            return "%s ends as %s" % (i, state.get(i))
+    if state.get(dirty) == ("bool", True):
+        return None                      # marked dirty: rebuilt before use
+    final = frozenset((i, state.get(i)) for i in sorted(ins))
+    kinds = {state[o][0] for o in outs if o in state}
+    if kinds == {"rebuilt"}:
+        for o in outs:
+            if state[o][1] != final:
+                stale = [i for (i, v) in state[o][1] if dict(final).get(i) != v]
+                return "the layout was rebuilt before %s received its final value" % stale
+        return None
+    if kinds == {"val"} and all(state[o] == ("val", "other", o) for o in outs if o in state) and state.get(dirty) in (("val", "other", dirty), ("bool", False)):
+        return None                      # copied wholesale from the source together with its inputs
+    return "cached members end as %s with the dirty flag %s" % ({o: state[o] for o in outs if o in state}, state.get(dirty))
